@@ -18,7 +18,9 @@ def touch_workflow(endpoints, graph, spec_hashes):
 
             spec_hashes.update(target)
             for path in target.flattened_outputs():
-                Path(path).touch(exist_ok=True)
+                path = Path(path)
+                path.parent.mkdir(parents=True, exist_ok=True)
+                path.touch(exist_ok=True)
 
 
 @click.command()
